@@ -24,6 +24,8 @@ use crate::meter::{Cost, HandlerRun};
 pub const MAX62: u64 = wire::MAX62;
 /// the value ladder (exponents); it tops out at 2^22 so that the harness survives a linear handler
 pub const LADDER: [u8; 5] = [8, 12, 16, 20, 22];
+const WATCHDOG_CPU_NS: u64 = 5_000_000_000;
+const WATCHDOG_WALL: Duration = Duration::from_secs(30);
 
 // ---------------------------------------------------------------------------------------------
 // values
@@ -503,7 +505,7 @@ impl Driver<'_> {
     }
 
     /// work oracle for one probe result against the ladder bottom; returns the handlers flagged (mem, cpu-suspect)
-    fn judge(&mut self, forged: &Forged, r: &ProbeResult, bottom: &Bottom, label: &str) -> (bool, bool) {
+    fn judge(&mut self, forged: &Forged, r: &ProbeResult, bottom: &Bottom, label: &str, judge_cpu: bool) -> (bool, bool) {
         let n = r.frame_len as u64 + r.units;
         let mut mem_flag = false;
         let mut cpu_flag = false;
@@ -524,12 +526,22 @@ impl Driver<'_> {
                     ),
                     self.probes,
                 );
-            } else if meter::cpu_excess(h.cost.cpu_ns, b.cpu_ns, n) {
-                // confirm: minimum of three runs on freshly rebuilt identical state
+            } else if judge_cpu && meter::cpu_excess(h.cost.cpu_ns, b.cpu_ns, n) {
+                // confirm on freshly rebuilt identical state. Thread CPU time is only ever inflated (cold caches,
+                // a preempted virtual CPU), so the minimum is the estimate: at least three readings, at most eight,
+                // until the two smallest agree within 15 % or one falls below the threshold
+                let mut readings = vec![h.cost.cpu_ns];
                 let mut min = h.cost.cpu_ns;
-                for _ in 0..2 {
+                while readings.len() < 8 {
                     if !meter::cpu_excess(min, b.cpu_ns, n) {
                         break;
+                    }
+                    if readings.len() >= 3 {
+                        let mut sorted = readings.clone();
+                        sorted.sort();
+                        if sorted[1] as f64 <= sorted[0] as f64 * 1.15 {
+                            break;
+                        }
                     }
                     self.beat(&format!("{}:{}:repeat", label, self.field_name));
                     meter::set_stop_after(Some(h.name));
@@ -541,6 +553,7 @@ impl Driver<'_> {
                         c = c.saturating_sub(cr.handlers.iter().find(|x| x.name == h.name).map(|x| x.cost.cpu_ns).unwrap_or(0));
                     }
                     meter::set_stop_after(None);
+                    readings.push(c);
                     min = min.min(c);
                 }
                 if std::env::var("BYZSIM_DEBUG").is_ok() {
@@ -585,10 +598,9 @@ impl Driver<'_> {
         let mut bottom: Bottom = BTreeMap::new();
         if ladderable {
             for k in LADDER {
+                // the whole ladder is climbed whatever the drawn value is: the work verdict is then a function of the
+                // state and the field only, judged where the margin over the noise is largest
                 let step = 1u64 << k;
-                if step > v {
-                    break;
-                }
                 let f = case.forged.with(case.field, step);
                 let label = format!("ladder 2^{k}");
                 let Some(r) = self.run(&f, &label) else { return };
@@ -602,7 +614,7 @@ impl Driver<'_> {
                     }
                     // the bottom is judged as a point (absolute bound only matters higher up)
                 } else {
-                    let (m, c) = self.judge(&f, &r, &bottom, &label);
+                    let (m, c) = self.judge(&f, &r, &bottom, &label, k == LADDER[LADDER.len() - 1]);
                     dependent |= m | c;
                     if m {
                         // allocation grows with the value: climbing further only costs memory
@@ -629,7 +641,7 @@ impl Driver<'_> {
                 eprintln!("[byzsim] {} {} -> {:?} {:?}", self.field_name, label, r.answer, r.handlers.iter().map(|h| (h.name, h.cost.alloc, h.cost.cpu_ns / 1000)).collect::<Vec<_>>());
             }
             if !bottom.is_empty() {
-                self.judge(&f, &r, &bottom, &label);
+                self.judge(&f, &r, &bottom, &label, true);
             }
         } else if !covered {
             self.out.stats.bump("probe.huge_value_withheld");
@@ -641,6 +653,7 @@ fn run_case(case: &Case, tx: &mpsc::Sender<Msg>) -> Outcome {
     let mut d = Driver { case, out: Outcome::default(), th: TraceHash::default(), tx, field_name: case.forged.field_name(case.field), probes: 0, flagged: Default::default() };
     d.drive();
     let mut out = d.out;
+    out.violations.sort_by(|a, b| a.signature().cmp(&b.signature()));
     out.trace_hash = d.th.get();
     out.nontrivial = !case.hist.is_empty() && d.probes > 0;
     out
@@ -716,9 +729,22 @@ impl Engine for ByzSim {
         let mut last = String::from("start");
         let t0 = std::time::Instant::now();
         let slow: Option<u128> = std::env::var("BYZSIM_SLOW").ok().and_then(|s| s.parse().ok());
+        // watchdog: a probe is given up after 5 s of CPU time of the probe thread (a handler that spins), or after
+        // 30 s of wall clock without CPU progress (a handler that blocks). CPU time, because the wall clock of a
+        // shared machine says little about the handler.
+        let cpu_of_helper = || -> Option<u64> {
+            use std::os::unix::thread::JoinHandleExt;
+            meter::thread_cpu_ns_of(handle.as_pthread_t() as usize)
+        };
+        let mut beat_wall = std::time::Instant::now();
+        let mut beat_cpu = cpu_of_helper().unwrap_or(0);
         loop {
-            match rx.recv_timeout(Duration::from_secs(5)) {
-                Ok(Msg::Beat(s)) => last = s,
+            match rx.recv_timeout(Duration::from_millis(250)) {
+                Ok(Msg::Beat(s)) => {
+                    last = s;
+                    beat_wall = std::time::Instant::now();
+                    beat_cpu = cpu_of_helper().unwrap_or(beat_cpu);
+                }
                 Ok(Msg::Done(o)) => {
                     let _ = handle.join();
                     if let Some(ms) = slow {
@@ -729,12 +755,23 @@ impl Engine for ByzSim {
                     return *o;
                 }
                 Err(mpsc::RecvTimeoutError::Timeout) => {
+                    let cpu_used = cpu_of_helper().map(|c| c.saturating_sub(beat_cpu));
+                    let spun = cpu_used.is_some_and(|c| c >= WATCHDOG_CPU_NS);
+                    let stuck = beat_wall.elapsed() >= WATCHDOG_WALL && (cpu_used.is_none() || cpu_used.is_some_and(|c| c < WATCHDOG_CPU_NS));
+                    if !spun && !(stuck && beat_wall.elapsed() >= WATCHDOG_WALL) {
+                        continue;
+                    }
                     // the helper is abandoned (it may never return)
                     let mut o = Outcome::default();
                     let field = case.forged.field_name(case.field);
                     let running = *current.lock().unwrap();
                     let handler = if running == "-" { target_name(&case.forged) } else { running };
-                    o.violate("work-cpu", format!("{handler}:{field}:timeout"), format!("probe '{last}' did not return within 5 s (handler running: {running})"), 0);
+                    o.violate(
+                        "work-cpu",
+                        format!("{handler}:{field}:timeout"),
+                        format!("probe '{last}' did not return: {} ms of CPU, {} ms of wall clock since it started (handler running: {running})", cpu_used.unwrap_or(0) / 1_000_000, beat_wall.elapsed().as_millis()),
+                        0,
+                    );
                     return o;
                 }
                 Err(mpsc::RecvTimeoutError::Disconnected) => {
